@@ -231,5 +231,6 @@ def run(ck, F):
     ck.run_rule(r04_8)
     ck.run_rule(r04_9)
     ck.run_rule(c01.r01_8)
+    ck.run_rule(c01.r01_9)
     import c06
     ck.run_rule(c06.r06_5)     # an item-level receive error is handed to the local receiver as a non-final error and the channel goes on
